@@ -60,11 +60,13 @@ class MustAssign:
         over handlers: the nested dispatch assigns)
     """
 
-    def __init__(self, prog, member, extra_assign_calls=()):
+    def __init__(self, prog, member, extra_assign_calls=(),
+                 nonempty_loops=True):
         self.prog = prog
         self.member = member
         self.memo = {}
         self.extra = set(extra_assign_calls)
+        self.nonempty_loops = nonempty_loops
 
     def is_member(self, e):
         return e.get("k") == "mem" and e.get("m") == self.member
@@ -170,10 +172,18 @@ class MustAssign:
             if k in ("for", "while", "forr"):
                 if k == "for" and s.get("init"):
                     st = run(s["init"], st)
-                # body may run zero times: exits inside are still checked
-                breaks.append([])
-                run(s.get("b"), st)
+                # exits inside the body are checked; a range-for whose body
+                # assigns on every path counts as assigning (the child
+                # containers of canonical n-ary nodes are non-empty)
+                brk = []
+                breaks.append(brk)
+                after = run(s.get("b"), st)
                 breaks.pop()
+                if k == "forr" and self.nonempty_loops:
+                    outs = [x for x in brk] + (
+                        [after] if after is not None else [])
+                    if outs and all(outs):
+                        return True
                 return st
             if k == "do":
                 breaks.append([])
